@@ -40,6 +40,7 @@ class LoopSpec:
         self._n = 0
 
     def __call__(self, ex, ctx, st, env):
+        self.node = st
         if self.init:
             self.init(ex, ctx, env)
         k = ctx._fresh.get('loopmode', 0)
